@@ -32,6 +32,7 @@ type TreeOpts struct {
 	Depth      int
 	NoBig      bool
 	ObjFail    bool
+	ArgClash   bool
 	LayoutComp bool // the layout itself uses a component
 }
 
@@ -67,7 +68,7 @@ func GenTree(r *Rng, o TreeOpts) *Tree {
 	if o.Depth == 0 {
 		o.Depth = 2
 	}
-	base := &Gen{R: r, ObjBias: o.ObjBias, FailBias: 0, Funcs: o.Funcs, NoBig: o.NoBig}
+	base := &Gen{R: r, ObjBias: o.ObjBias, FailBias: 0, Funcs: o.Funcs, NoBig: o.NoBig, ArgClash: o.ArgClash}
 	t.Data = base.GenData()
 	dataVars := append([]gvar{}, base.vars...)
 
